@@ -7,6 +7,7 @@ package xlatesample
 
 import (
 	"encoding/binary"
+	"errors"
 	"math"
 	"sort"
 )
@@ -275,4 +276,25 @@ func FillPkt(ver int16, code int32, bad bool) Pkt {
 	}
 	p.Ver = p.Ver + int16(p.Ret)
 	return p
+}
+
+// error values: nil, errors.New(text), a pointer to the package's error struct (unit option ErrVals)
+type E struct {
+	Code int32
+	Msg  string
+}
+
+func (e *E) Error() string { return e.Msg }
+
+func MapErr(ret int32, desc string) error {
+	if ret != 0 {
+		if desc == "" {
+			desc = "none"
+		}
+		if ret != 0 && ret != 1 {
+			return &E{Code: ret, Msg: desc}
+		}
+		return errors.New(desc)
+	}
+	return nil
 }
